@@ -125,3 +125,63 @@ fn c09_send_fault_scripts() {
         }
     }
 }
+
+// ---------------------------------------------------------------------------------------------------------------- async
+use core::future::Future;
+use core::pin::Pin;
+use core::task::{Context, Poll};
+use flatty_io::{AsyncIoReceiver, AsyncIoSender};
+use futures::io::{AsyncRead, AsyncWrite};
+
+/// async source: at every poll symbolically Pending, or a chunk of symbolic size (>= 1 while data remains)
+struct ASrc<const N: usize> { data: [u8; N], len: usize, pos: usize, pendings: usize }
+impl<const N: usize> AsyncRead for ASrc<N> {
+    fn poll_read(mut self: Pin<&mut Self>, _cx: &mut Context<'_>, buf: &mut [u8]) -> Poll<io::Result<usize>> {
+        let pend: bool = kani::any();
+        if pend && self.pendings < 2 { self.pendings += 1; return Poll::Pending; }
+        let left = self.len - self.pos;
+        let want: usize = kani::any();
+        kani::assume(want <= left && want <= buf.len() && (want > 0 || left == 0 || buf.is_empty()));
+        let mut i = 0;
+        while i < N { if i < want { buf[i] = self.data[self.pos + i]; } i += 1; }
+        self.pos += want;
+        Poll::Ready(Ok(want))
+    }
+}
+
+/// drive a future by hand: every Pending is followed by another poll (the pipe bounds the number of Pendings)
+fn drive<F: Future>(mut f: Pin<&mut F>, max_polls: usize) -> Option<F::Output> {
+    let waker = futures::task::noop_waker();
+    let mut cx = Context::from_waker(&waker);
+    let mut k = 0;
+    while k < max_polls {
+        if let Poll::Ready(x) = f.as_mut().poll(&mut cx) { return Some(x); }
+        k += 1;
+    }
+    None
+}
+
+/// C08 / C10 (async receiver): every byte stream of <= 3 bytes, every chunking, every placement of up to two Pending results:
+/// recv completes once the pipe made progress, yields exactly the next frame of the stream or an error, never panics
+#[kani::proof]
+#[kani::unwind(8)]
+fn c08_async_recv_arbitrary_bytes() {
+    const N: usize = 3; // BOUNDED: stream <= 3 bytes, one recv, <= 2 Pending results, max_msg_len 3
+    let data: [u8; N] = kani::any();
+    let len: usize = kani::any();
+    kani::assume(len <= N);
+    let mut rx = AsyncIoReceiver::<Msg, _>::io(ASrc::<N> { data, len, pos: 0, pendings: 0 }, 3);
+    let fut = rx.recv();
+    futures::pin_mut!(fut);
+    let out = drive(fut, 6);
+    assert!(out.is_some(), "C08: recv did not complete although the pipe made all the progress it can");
+    let res = out.unwrap();
+    if let Ok(g) = res {
+        let n = g.len();
+        assert!(1 + n <= len, "C10: a message extends past the bytes that were sent");
+        assert!(data[0] as usize == n, "C08,C10: message length differs from the stream");
+        let mut i = 0;
+        while i < N { if i < n { assert!(g.as_slice()[i] == data[1 + i], "C08,C10: message content differs from the stream"); } i += 1; }
+        drop(g);
+    }
+}
